@@ -150,7 +150,7 @@ func MsgFromGo(x interface{}) *Msg {
 	case *protocol.ForwardMessage:
 		return &Msg{Mode: "forward", Tag: []byte(t.Tag), Entries: EntriesFromGo(t.Entries), Opts: OptsFromGo(t.Options)}
 	case *protocol.PackedForwardMessage:
-		return &Msg{Mode: "packed", Tag: []byte(t.Tag), Stream: t.EventStream, Opts: OptsFromGo(t.Options)}
+		return &Msg{Mode: "packed", Tag: []byte(t.Tag), Stream: append([]byte{}, t.EventStream...), Opts: OptsFromGo(t.Options)}
 	}
 	panic("MsgFromGo")
 }
@@ -163,9 +163,23 @@ func GenEntries(r *rand.Rand, big bool) []Entry {
 		n = bigLens[r.Intn(2)]
 	}
 	es := make([]Entry, n)
+	tiny := r.Intn(6) == 0 // every record as small as a record can be (1-4 bytes on the wire)
+	if tiny && n < 100 {
+		n = []int{1, 2, 3, 4, 9, 10, 15, 16, 40}[r.Intn(9)]
+		es = make([]Entry, n)
+	}
 	for i := range es {
 		s, ns := GenInstant(r)
-		if n > 100 {
+		if tiny {
+			switch r.Intn(3) {
+			case 0:
+				es[i] = Entry{s, ns, Map(nil, nil)}
+			case 1:
+				es[i] = Entry{s, ns, Nil()}
+			default:
+				es[i] = Entry{s, ns, Map([][]byte{[]byte("a")}, []*V{Int(int64(r.Intn(100)))})}
+			}
+		} else if n > 100 {
 			es[i] = Entry{s, ns, Map(nil, nil)}
 		} else if n > 3 {
 			es[i] = Entry{s, ns, GenMap(r, 0, false)}
